@@ -10,7 +10,7 @@ CONSTANTS
   MaxOps = 4
   MaxSnaps = 2
   MaxRestarts = 1
-INVARIANTS NoTombLive GroupsFine EpochsFine FlagsConsistent
+INVARIANTS NoTombLive GroupsValid GroupsFine EpochsFine FlagsConsistent
 PROPERTIES A_RS_Streams A_RS_RoEff A_RS_GroupMembers A_NoDataLoss A_NoResurrection A_NoApplyError A_RS_StartedByFinish
 VIEW MCView
 CHECK_DEADLOCK FALSE
